@@ -85,21 +85,22 @@ def quiet_shm():
 # --------------------------------------------------------------------------
 # JSON helpers (bytes <-> {"$b": hex})
 # --------------------------------------------------------------------------
-def enc(o):
+def enc(o, typed=False):
+    """JSON-able form.  typed=True (replay files) keeps numpy integer types."""
     import numpy as np
 
     if isinstance(o, (bytes, bytearray)):
         return {"$b": bytes(o).hex()}
     if isinstance(o, dict):
-        return {"$d": [[enc(k), enc(v)] for k, v in o.items()]} if any(
+        return {"$d": [[enc(k, typed), enc(v, typed)] for k, v in o.items()]} if any(
             not isinstance(k, str) for k in o
-        ) else {k: enc(v) for k, v in o.items()}
+        ) else {k: enc(v, typed) for k, v in o.items()}
     if isinstance(o, (list, tuple)):
-        return [enc(x) for x in o]
+        return [enc(x, typed) for x in o]
     if isinstance(o, np.ndarray):
         return {"$a": o.tolist(), "dtype": str(o.dtype)}
     if isinstance(o, (np.integer,)):
-        return int(o)
+        return {"$n": int(o), "dtype": o.dtype.name} if typed else int(o)
     if isinstance(o, (np.floating,)):
         return float(o)
     if isinstance(o, (np.bool_,)):
@@ -117,6 +118,10 @@ def dec(o):
             import numpy as np
 
             return np.array(o["$a"], dtype=o["dtype"])
+        if "$n" in o and len(o) == 2:
+            import numpy as np
+
+            return np.dtype(o["dtype"]).type(o["$n"])
         return {k: dec(v) for k, v in o.items()}
     if isinstance(o, list):
         return [dec(x) for x in o]
@@ -287,7 +292,7 @@ def load_known(prop):
 # --------------------------------------------------------------------------
 def write_replay(prop, module, case, message, observed):
     os.makedirs(REPLAY_DIR, exist_ok=True)
-    blob = json.dumps(enc(case), sort_keys=True, default=str)
+    blob = json.dumps(enc(case, True), sort_keys=True, default=str)
     h = hashlib.sha1(blob.encode()).hexdigest()[:10]
     path = os.path.join(REPLAY_DIR, f"{prop}-{h}.json")
     with open(path, "w") as f:
@@ -295,7 +300,7 @@ def write_replay(prop, module, case, message, observed):
             {
                 "property": prop,
                 "module": module,
-                "case": enc(case),
+                "case": enc(case, True),
                 "message": message,
                 "observed": enc(observed),
                 "how_to_replay": f"cd {VERIF_DIR} && /venv/bin/python -m vf.replay {path}",
